@@ -506,6 +506,9 @@ func c10WebConcPhase(e *c10WebEnv) {
 func c10WebMultiPhase(e *c10WebEnv) {
 	r := e.cs.Request
 	const sig = "C10/web/other-session-dependent"
+	// one P: what a later session does to process-wide pools / scratch memory then reaches the earlier
+	// session deterministically (the other phases run with all Ps)
+	defer runtime.GOMAXPROCS(runtime.GOMAXPROCS(1))
 	A := e.server(0)
 	if A == nil {
 		return
